@@ -69,4 +69,12 @@ CLAIMS = {
              'after tokenizing, indent_text, the convergence loops of uncrustify_file (a pre-existing hang on a Pawn "#define X" at end of '
              'file reported by an independent reviewer lies there), wall-clock limits.',
         design_ref='DESIGN.md section 4, C06'),
+    'C20': dict(
+        text='Bounded model checking of the kernels that own the counts: blank_line_max/blank_line_set for EVERY newline count and limit, and '
+             'newlines_eat_start_end() on every chunk list of up to k chunks with all values of nl_start_of_file/_min and nl_end_of_file/_min: '
+             'remove leaves no line break, force gives exactly the minimum, add raises to the minimum and never lowers, ignore and code '
+             'fragments leave the ends alone.',
+        note='Bounds: quick k<=3 chunks, thorough k<=4; newline counts 1..9, unbounded options in [0,64]. NOT decided (stated): a full run of '
+             'do_blank_lines (the cap on every newline chunk) - CBMC did not finish on its list walks even for 2 chunks; the other nl_ passes.',
+        design_ref='DESIGN.md section 4, C20'),
 }
